@@ -29,6 +29,7 @@ type Run struct {
 	KnownFile string
 	ReplayDir string
 	Explain   bool
+	keepFiles []string
 	Only      string
 	T0        time.Time
 	LoadSecs  float64
